@@ -140,9 +140,7 @@ theorem onData_da (n : FNode) (d : Data) :
         · exact ⟨rfl, fun s hs => by simp at hs⟩
         · split
           · exact ⟨rfl, fun s hs => by simp at hs⟩
-          · split
-            · exact ⟨h.1, h.2⟩
-            · exact h
+          · exact h
 
 /-! ## 2. erasure of the field -/
 
@@ -329,8 +327,6 @@ theorem onData_erase (n : FNode) (d : Data) :
       if d.txs.isEmpty then (eraseN n, [])
       else if d.daCommitment ∈ n.seenD then (eraseN n, [])
       else if m.height ≤ n.store.height then (eraseN n, [])
-      else if (syncAfter (cacheD n m.height d)).1.alive then
-        (markD (eraseN (syncAfter (cacheD n m.height d)).1) d.daCommitment, (syncAfter (cacheD n m.height d)).2.map eraseW)
       else (eraseN (syncAfter (cacheD n m.height d)).1, (syncAfter (cacheD n m.height d)).2.map eraseW)) = _
     split
     · rfl
@@ -338,9 +334,7 @@ theorem onData_erase (n : FNode) (d : Data) :
       · rfl
       · split
         · rfl
-        · split
-          · rfl
-          · split <;> rfl
+        · split <;> rfl
 
 /-! ### start-up -/
 
